@@ -1,6 +1,7 @@
 package main
 
 import (
+	"runtime"
 	"strings"
 	"sync"
 	"sync/atomic"
@@ -21,15 +22,32 @@ type timerGate struct {
 	closed  chan struct{}
 	once    sync.Once
 	blind   atomic.Bool // the hook points were not reached in time once: do not wait that long again
+	// window: when armed, the timer goroutine also parks BETWEEN its LevelDB write and the batch reset (DB only)
+	armWindow atomic.Bool
+	inWindow  chan struct{}
+	leaveWin  chan struct{}
 }
 
 func newTimerGate() *timerGate {
-	return &timerGate{arrived: make(chan struct{}), release: make(chan struct{}), done: make(chan struct{}), closed: make(chan struct{})}
+	return &timerGate{arrived: make(chan struct{}), release: make(chan struct{}), done: make(chan struct{}), closed: make(chan struct{}),
+		inWindow: make(chan struct{}), leaveWin: make(chan struct{})}
 }
 
 func (g *timerGate) close() { g.once.Do(func() { close(g.closed) }) }
 
-var timerGates sync.Map // path → *timerGate
+var timerGates sync.Map      // path → *timerGate
+var timerGoroutines sync.Map // goroutine id of a persister's timer goroutine → path (learnt at timer.beforeFlush)
+
+func goroutineID() string {
+	var buf [64]byte
+	n := runtime.Stack(buf[:], false)
+	f := strings.Fields(string(buf[:n]))
+	if len(f) >= 2 {
+		return f[1]
+	}
+	return ""
+}
+
 var concpHook atomic.Value // func(string)
 
 func init() {
@@ -42,6 +60,7 @@ func init() {
 			}
 			g := v.(*timerGate)
 			if strings.HasPrefix(id, "timer.beforeFlush") {
+				timerGoroutines.Store(goroutineID(), id[i+1:])
 				select {
 				case g.arrived <- struct{}{}:
 				case <-g.closed:
@@ -58,6 +77,23 @@ func init() {
 				}
 			}
 			return
+		}
+		if id == "db.timer.betweenWriteAndReset" {
+			if pth, ok := timerGoroutines.Load(goroutineID()); ok {
+				if v, ok := timerGates.Load(pth.(string)); ok {
+					g := v.(*timerGate)
+					if g.armWindow.CompareAndSwap(true, false) {
+						select {
+						case g.inWindow <- struct{}{}:
+							select {
+							case <-g.leaveWin:
+							case <-g.closed:
+							}
+						case <-g.closed:
+						}
+					}
+				}
+			}
 		}
 		if f, _ := concpHook.Load().(func(string)); f != nil {
 			f(id)
@@ -78,6 +114,40 @@ func unregisterGate(path string) {
 	if old, ok := timerGates.LoadAndDelete(path); ok {
 		old.(*timerGate).close()
 	}
+}
+
+// letTimerFlushWithWindow lets one timer flush through like letTimerFlush, but parks the timer goroutine between its LevelDB
+// write and the batch reset and runs `during` (which must not wait for the flush to end) while it is parked there.
+// Returns false when the window was not reached (other persister kinds, restructured code): `during` was then NOT run.
+func letTimerFlushWithWindow(g *timerGate, patience time.Duration, during func()) bool {
+	if g.blind.Load() {
+		return false
+	}
+	g.armWindow.Store(true)
+	defer g.armWindow.Store(false)
+	select {
+	case <-g.arrived:
+	case <-time.After(patience):
+		g.blind.Store(true)
+		return false
+	}
+	g.release <- struct{}{}
+	reached := false
+	select {
+	case <-g.inWindow:
+		reached = true
+		during()
+		g.leaveWin <- struct{}{}
+	case <-g.done:
+		return false
+	case <-time.After(5 * time.Second):
+		return false
+	}
+	select {
+	case <-g.done:
+	case <-time.After(5 * time.Second):
+	}
+	return reached
 }
 
 // letTimerFlush waits for the persister's timer to fire, lets exactly one timer flush through and waits for its end.
